@@ -120,6 +120,7 @@ def run(ctx, anchors=None):
     # ---- R02.3 / R02.7 digest layout on terms (G-SYM)
     from . import c02_digests
     c02_digests.run(ctx, fb, prog, spec)
+    c02_digests.run_pubkey_encoding(ctx, fb, prog)
     # ---- R02.5 ECDSA verification normalises the parsed signature in place and verifies that same object
     ctx.rule("R02.5", "CPubKey::Verify / VerifyCompact: lax-parse (or compact-parse), normalise IN PLACE, verify the normalised signature")
     from .. import symx as _sx5
@@ -306,6 +307,8 @@ def run(ctx, anchors=None):
 
 
 MUTANTS = [
+    dict(name="strictenc-accepts-hybrid-keys", file="script/interpreter.cpp", find="    if (vchPubKey[0] == 0x04) {\n        if (vchPubKey.size() != CPubKey::SIZE) {", replace="    if (vchPubKey[0] == 0x04 || vchPubKey[0] == 0x06 || vchPubKey[0] == 0x07) {\n        if (vchPubKey.size() != CPubKey::SIZE) {", expect=["R02.8:pubkey-encoding:IsCompressedOrUncompressedPubKey"]),
+    dict(name="strictenc-via-validsize", file="script/interpreter.cpp", find="bool static IsCompressedOrUncompressedPubKey(const valtype &vchPubKey) {\n", replace="bool static IsCompressedOrUncompressedPubKey(const valtype &vchPubKey) {\n    if (CPubKey::ValidSize(vchPubKey)) return true;\n", expect=["R02.8:pubkey-encoding:IsCompressedOrUncompressedPubKey"]),
     dict(name="legacy-sequence-not-blanked-for-none", file="script/interpreter.cpp", find="        if (nInput != nIn && (fHashSingle || fHashNone)) {", replace="        if (nInput != nIn && fHashSingle) {", expect=["R02.3:legacy-SerializeInput"]),
     dict(name="legacy-single-output-condition", file="script/interpreter.cpp", find="        if (fHashSingle && nOutput != nIn)\n", replace="        if (fHashSingle && nOutput == nIn)\n", expect=["R02.3:legacy-SerializeOutput"]),
     dict(name="normalize-to-null", file="pubkey.cpp", find="    secp256k1_ecdsa_signature_normalize(secp256k1_context_verify, &sig, &sig);\n    return secp256k1_ecdsa_verify(secp256k1_context_verify, &sig, hash.begin(), &pubkey);\n}\n\nbool CPubKey::VerifyCompact", replace="    secp256k1_ecdsa_signature_normalize(secp256k1_context_verify, nullptr, &sig);\n    return secp256k1_ecdsa_verify(secp256k1_context_verify, &sig, hash.begin(), &pubkey);\n}\n\nbool CPubKey::VerifyCompact", expect=["R02.5:normalize-in-place:CPubKey::Verify"]),
